@@ -26,6 +26,7 @@ func init() {
 }
 
 func runC07(c *fw.Ctx) {
+	deeperBounds(!c.Quick())
 	u := func(k *fw.K, shape []int) *ref.T { return Shuffled(k.Rng, Unique(k.Rng, shape, 0.2, 2.5)) }
 	run := func(k *fw.K, in ref.Instr, xs []*ref.T, mask []bool) {
 		y, err := ref.Apply(in, xs)
@@ -206,7 +207,7 @@ func runC07(c *fw.Ctx) {
 	// ---- sampled high-rank pairs ----
 	for i := 0; i < c.Pick(5000, 50000); i++ {
 		c.Case(func(k *fw.K) {
-			dst := RandShape(k.Rng, 4, 6, 3)
+			dst := RandShape(k.Rng, 4, maxSampledRank-1, 3)
 			prs := batchPairs(dst)
 			pr := prs[k.Rng.Intn(len(prs))]
 			masks := subsets(2)
